@@ -32,6 +32,7 @@ class Spec(object):
         self.post = list(post or [])            # [(name, callable(post_reader) -> z3 bool)] extra postconditions
         self.note = note
         self.any_effects_after = False          # allow arbitrary further effects (used with assumed callees)
+        self.may_raise = ()                     # exception class names that are an acceptable outcome besides returning
 
 
 class _Deleted(object):
@@ -415,7 +416,8 @@ def compare(it, sp, pre_snap, roots, eff0, outcome, prefix):
     elif outcome.kind == 'raise':
         ev = outcome.value
         if sp.exc is None:
-            definite.append('outcome: raised %s, spec says returns' % ev.clsname)
+            if ev.clsname not in sp.may_raise and not (getattr(sp, 'element_errors_ok', False) and ev.f.get('_in_abstracted_loop')):
+                definite.append('outcome: raised %s, spec says returns' % ev.clsname)
         else:
             cls, fields = sp.exc
             if isinstance(cls, str):
